@@ -172,6 +172,7 @@ pub fn join_accepts(region: &str, full: bool) -> Vec<JaSpec> {
     cfs.push(mk1([0, 0, 0, 0, 0, 0, 0, 0, 0xff], 1));
     cfs.push(mk1([1, 0, 0, 0, 0, 0, 0, 0, 0], 1));
     cfs.push(mk1([0, 0xff, 0, 0, 0, 0, 0, 0, 2], 1));
+    cfs.push(mk1([0, 0, 0, 0, 0, 0, 0, 0xff, 0x80], 1));
     if full {
         for ty in [2u8, 3, 0x80, 0xFF] {
             cfs.push(mk1([0xAA; 9], ty));
